@@ -161,3 +161,23 @@ class Obj:
     def __init__(self, **kw):
         for k, v in kw.items():
             setattr(self, k, v)
+
+
+def forward_open_size(frame):
+    """the connection size a (Large) Forward Open request asks for -- the value the target will enforce; None when the
+    frame is not a Forward Open or its two directions disagree"""
+    from spec.encap import try_parse_frame
+    p = try_parse_frame(frame)
+    if p is None or p[0] != 0x6F:
+        return None
+    msg = p[3][1]
+    if len(msg) < 2:
+        return None
+    data = msg[2 + 2 * msg[1]:]
+    if msg[0] == 0x54 and len(data) >= 34:
+        a, b = le16(data, 26) & 0x01FF, le16(data, 32) & 0x01FF
+    elif msg[0] == 0x5B and len(data) >= 38:
+        a, b = le16(data, 26), le16(data, 34)
+    else:
+        return None
+    return a if a == b else None
